@@ -643,7 +643,29 @@ func c12f(c *Ctx) {
 					viaHelper = true
 				}
 			}
-			if d.Kind != DefAssign || !ok || d.Idx != 0 || !(viaHelper || matchCallee(info, call, Callee{pkgRoot, "", "ReadTileLeaf"}, Callee{pkgRoot, "", "ReadTileLeafMaybeArchival"})) {
+			isReaderVar := func(call *ast.CallExpr) bool {
+				fo := objOf(info, call.Fun)
+				if fo == nil || !isLocal(fo) || len(f.Defs(fo)) == 0 {
+					return false
+				}
+				for _, fd := range f.Defs(fo) {
+					if fn, isFn := objOf(info, fd.Rhs).(*types.Func); !isFn || fd.Kind != DefAssign || fn.Pkg() == nil || fn.Pkg().Path() != pkgRoot || (fn.Name() != "ReadTileLeaf" && fn.Name() != "ReadTileLeafMaybeArchival") {
+						return false
+					}
+				}
+				return true
+			}
+			// the yielded variable may be a plain copy of the parsed one
+			if d.Kind == DefAssign && d.Idx < 0 && !ok {
+				if src := objOf(info, f.copyRoot(d.Rhs)); src != nil && src != o && isLocal(src) {
+					if sd := f.Defs(src); len(sd) == 1 {
+						d = sd[0]
+						call, ok = ast.Unparen(d.Rhs).(*ast.CallExpr)
+					}
+				}
+			}
+			viaVar := ok && isReaderVar(call)
+			if d.Kind != DefAssign || !ok || d.Idx != 0 || !(viaHelper || viaVar || matchCallee(info, call, Callee{pkgRoot, "", "ReadTileLeaf"}, Callee{pkgRoot, "", "ReadTileLeafMaybeArchival"})) {
 				c.Bad(inst, f.Pos(d.Node), "the entry yielded can come from something other than the tile-leaf reader")
 				return
 			}
@@ -845,14 +867,25 @@ func c12bIndexCheck(c *Ctx, f *Func, entObj types.Object, sinks []Site) {
 	}
 	{
 		idxP := f.paramObj("index")
+		sameEnt := func(r types.Object) bool {
+			if r == entObj {
+				return true
+			}
+			// a plain copy of the parsed entry (entry := parsed)
+			if r == nil || !isLocal(r) {
+				return false
+			}
+			ds := f.Defs(r)
+			return len(ds) == 1 && ds[0].Kind == DefAssign && ds[0].Idx < 0 && objOf(info, f.copyRoot(ds[0].Rhs)) == entObj
+		}
 		isLI := func(e ast.Expr) bool {
 			r, p, ok := fieldPath(info, e)
-			return ok && r == entObj && len(p) == 1 && p[0] == "LeafIndex"
+			return ok && sameEnt(r) && len(p) == 1 && p[0] == "LeafIndex"
 		}
 		isIdx := func(e ast.Expr) bool { return objOf(info, e) == idxP }
 		isArch := func(e ast.Expr) bool {
 			r, p, ok := fieldPath(info, e)
-			return ok && r == entObj && len(p) == 1 && p[0] == "RFC6962ArchivalLeaf"
+			return ok && sameEnt(r) && len(p) == 1 && p[0] == "RFC6962ArchivalLeaf"
 		}
 		safe := g.EdgesImplying(func(a Atom) bool {
 			if rel, ok := cmpRel(a, isLI, isIdx); ok && rel == relEQ {
